@@ -517,7 +517,11 @@ func (env *TEnv) trCall(x *ECall) (TV, error) {
 		case *types.Basic:
 			return TV{S("slen", a.T), tInt}, nil
 		case *types.Map:
-			_, _, kl := vc.mapKeys(t)
+			_, kd, kl := vc.mapKeys(t)
+			if sh, ok := env.cur.(stateHeap); ok {
+				// true of every real map in every state: length zero iff no key
+				vc.assume(mapLenFact(vc, t, a.T, sh.Get(kl), sh.Get(kd)))
+			}
 			return TV{Ite(S("=", a.T, "0"), "0", S("select", env.cur.Get(kl), a.T)), tInt}, nil
 		}
 		return TV{}, fmt.Errorf("len of %s", a.Ty)
@@ -1006,4 +1010,13 @@ func (vc *FuncVC) revealed(name string) bool {
 		}
 	}
 	return false
+}
+
+// mapLenFact: for map reference m in the state (lens, doms): len == 0 iff the
+// domain is empty, and len >= 0. A fact about every real Go map.
+func mapLenFact(vc *FuncVC, t *types.Map, m, lens, doms string) string {
+	ks := vc.eng.sortOf(t.Key())
+	ln := S("select", lens, m)
+	return Imp(Not(S("=", m, "0")), And(S("<=", "0", ln),
+		S("=", S("=", ln, "0"), fmt.Sprintf("(forall ((k!l %s)) (! (not (select (select %s %s) k!l)) :pattern ((select (select %s %s) k!l))))", ks, doms, m, doms, m))))
 }
